@@ -126,7 +126,8 @@ def _convert(item):
     seed = par.G['seed']
     try:
         if dim == 3:
-            cube = inputs.cube((5, 6, 7), seed)
+            # asymmetric extents whose padded products differ when two blockshape entries are exchanged
+            cube = inputs.cube((3, 70, 5) if max(s[0], s[1]) >= 64 else (5, 9, 7), seed)
             writers.numpy_to_sgz(p, cube, py_bits(st, n, d), s)
             src3 = cube
         else:
@@ -146,7 +147,16 @@ def _convert(item):
     try:
         F, meta = session.sgzfile.descriptor(p, session.fields())
         ok, shp = audit.readback_ok(p, src3, meta['rate'], dim=dim)
-        return {'outcome': 'file', 'faithful': bool(ok), 'rate': str(meta['rate']), 'b': F['b']}
+        from . import c03
+        _, _, H = c03.parse(p)
+        hdr_ok = True
+        if dim == 3:        # the default inline/crossline arrays are found where the header says the footer is
+            from seismic_zfp.read import SgzReader
+            with env.quiet():
+                with SgzReader(p) as r:
+                    last = r.gen_trace_header(src3.shape[0] * src3.shape[1] - 1)
+                    hdr_ok = (int(last[segyio.TraceField.INLINE_3D]), int(last[segyio.TraceField.CROSSLINE_3D])) == (src3.shape[0] - 1, src3.shape[1] - 1)
+        return {'outcome': 'file', 'faithful': bool(ok), 'rate': str(meta['rate']), 'b': F['b'], 'H': H, 'n': list(src3.shape), 'headers_ok': hdr_ok}
     except BaseException as e:
         if isinstance(e, (KeyboardInterrupt, SystemExit, MemoryError)):
             raise
@@ -199,7 +209,29 @@ def run(run):
         keep = set(rng.choice(len(todo), size=900, replace=False).tolist())
         todo = [t for i, t in enumerate(todo) if i in keep]
     par.G['seed'] = run.seed
-    for p, c in zip(todo, par.pmap(_convert, todo, chunksize=4)):
+    conv = par.pmap(_convert, todo, chunksize=4)
+    # accepted => the output passes C03's conformance conjuncts (TLC, Gen_Conform) for the SOURCE extents and the setting as the
+    # model resolves it
+    from . import c03
+    mres = {tuple(pp[:4]) + (tuple(pp[4]),): mm for pp, mm in zip(pts, model['items'])}
+    citems, cidx = [], {}
+    for k, (p, c) in enumerate(zip(todo, conv)):
+        m = mres.get(tuple(p[:4]) + (tuple(p[4]),))
+        if isinstance(c, par.Crash) or c['outcome'] != 'file' or 'H' not in c or not m or not m['ok']:
+            continue
+        dim = p[0]
+        rate = Fr(m['rate'][0], m['rate'][1])
+        if dim == 2 and rate < 1:
+            continue
+        nn = c['n']
+        T = c03.truth(dim, nn, list(m['shape']), rate, nn[1] if dim == 2 else nn[0] * nn[1], z0=0, dz_us=4000, source_format=20 if dim == 3 else 0)
+        T['F']['narr'] = 0
+        cidx[k] = len(citems)
+        citems.append({'T': T, 'H': c['H']})
+    cout = tlc.oracle('Gen_Conform', {'items': citems}, key='items') if citems else {'items': [], '_tlc': {'generated': 0, 'wall_s': 0}}
+    run.add_tlc({'distinct': 0, 'generated': cout['_tlc']['generated'], 'wall_s': cout['_tlc']['wall_s']}, 'Gen_Conform')
+    NAMES = ('wellformed', 'n_samples', 'n_xlines', 'n_ilines', 'bits_per_voxel', 'blockshape', 'data_blocks', 'entry_bytes', 'tracecount', 'file_length')
+    for k, (p, c) in enumerate(zip(todo, conv)):
         dim, st, n, d, s, kind = p
         case = {'dim': dim, 'bits': py_bits(st, n, d) if not st else repr(py_bits(st, n, d)), 'blockshape': list(s), 'kind': kind, 'stage': 'convert'}
         run.case(case)
@@ -211,7 +243,15 @@ def run(run):
             if kind.startswith('valid'):
                 run.fail('C19.valid-accepted', case, c, 'a file')
         else:
-            run.check(c['faithful'], 'C19.reject-or-faithful', case, c, 'a file that reads back bitwise')
+            cc = {kk: vv for kk, vv in c.items() if kk != 'H'}
+            run.check(c['faithful'], 'C19.reject-or-faithful', case, cc, 'a file that reads back bitwise')
+            if 'headers_ok' in c:
+                run.check(c['headers_ok'], 'C19.conformant[headers-readable]', case, cc, 'the stored inline/crossline arrays at the footer offset')
+            if k in cidx:
+                failed = [f[0] for f in cout['items'][cidx[k]]['failed']]
+                for name in NAMES:
+                    run.check(name not in failed, f'C19.conformant[{name}]', case, {x: c['H'].get(x) for x in (name, 'file_len', 'data_blocks') if x in c['H']},
+                              'SgzFormat conformance for the source extents and the resolved setting')
 
 
 def replay(run, rep):
@@ -229,4 +269,14 @@ def replay(run, rep):
     if cv['outcome'] == 'raise':
         run.check(not cv['output_left'], 'C19.reject-leaves-no-output', c, cv, None)
     else:
-        run.check(cv['faithful'], 'C19.reject-or-faithful', c, cv, None)
+        run.check(cv['faithful'], 'C19.reject-or-faithful', c, {kk: vv for kk, vv in cv.items() if kk != 'H'}, None)
+        run.check(cv.get('headers_ok', True), 'C19.conformant[headers-readable]', c, None, None)
+        if rep['clause'].startswith('C19.conformant[') and 'H' in cv:
+            from . import c03
+            m = tlc.oracle('Gen_Config', {'items': [{'dim': item[0], 'str': item[1], 'n': item[2], 'd': item[3], 's': list(item[4])}]}, key='items')['items'][0]
+            nn = cv['n']
+            T = c03.truth(item[0], nn, list(m['shape']), Fr(m['rate'][0], m['rate'][1]), nn[1] if item[0] == 2 else nn[0] * nn[1], z0=0, dz_us=4000,
+                          source_format=20 if item[0] == 3 else 0)
+            o = tlc.oracle('Gen_Conform', {'items': [{'T': T, 'H': cv['H']}]}, key='items')['items'][0]
+            name = rep['clause'][len('C19.conformant['):-1]
+            run.check(name not in [f[0] for f in o['failed']], rep['clause'], c, None, None)
